@@ -255,6 +255,13 @@ fn c11_case(rng: &mut Rng, multi: bool) -> GCase {
     let n = rng.range(1, 12);
     let wclass = *rng.pick(&[WClass::Unweighted, WClass::Exact, WClass::ExactWide, WClass::Generic]);
     let mut case = gen_case(specs, family, n, wclass, &GenOpts { self_loops: true, parallel: multi, shuffle_edges: true }, rng);
+    if wclass.weighted() && rng.chance(1, 4) {
+        // every weight below 1 (the normalising maximum itself is then below 1)
+        for e in case.edges.iter_mut() {
+            e.2 /= 16.0;
+        }
+        ctx::count("reach:all-weights-below-1");
+    }
     if wclass.weighted() {
         // "self-loops never count": keep loop weights from deciding the normalising maximum
         let minw = case.edges.iter().map(|e| e.2).fold(f64::INFINITY, f64::min);
